@@ -609,6 +609,23 @@ example : Defective (.typ .alias ["Other"] []) ["Wrong"] ∧
 theorem C15_ctor_agrees_isGlobal (l : Lid) : (spOf l).moduleNameRelative = !isGlobalMod l.moduleName :=
   spOf_relative l
 
+/-- the constructor as a function (`Model/FilesCtor.lean`, op `ctor`): for ANY root, module name and list of path types,
+    every smart path it builds carries the flag `!isGlobal(moduleName)` (and the loader's name and root) — one per path
+    type; it refuses (PCORE_ILLEGAL_ARGUMENT) exactly the lists that hold a path type without a factory; and the smart path
+    `find` / `HasEntry` / `Discover` of the model consult (`spOf`) IS the one it builds for the data-type path -/
+theorem C15_ctor_paths (root : Path) (mod : String) (pts : List String) :
+    ((∃ sps, newLoaderPaths root mod pts = .ok sps) ↔ ∀ pt ∈ pts, pt = "puppetDataType") ∧
+    (∀ sps, newLoaderPaths root mod pts = .ok sps →
+      sps.length = pts.length ∧
+      ∀ sp ∈ sps, sp.moduleNameRelative = !isGlobalMod mod ∧ sp.moduleName = mod ∧ sp.root = root) ∧
+    (∀ l : Lid, newLoaderPaths (spOf l).root l.moduleName ["puppetDataType"] = .ok [spOf l]) :=
+  ⟨newLoaderPaths_ok_iff root mod pts, newLoaderPaths_flag root mod pts, spOf_is_ctor⟩
+
+/-- non-vacuity: the registered path type is accepted for each kind of name, `plan` is refused -/
+example : (∃ sps, newLoaderPaths ["r"] "environment" ["puppetDataType", "puppetDataType"] = .ok sps) ∧
+    newLoaderPaths ["r"] "mymod" ["puppetDataType", "plan"] = .error illegalArgument := by
+  exact ⟨⟨_, rfl⟩, rfl⟩
+
 /-- a TOP-LEVEL file loader of any kind as the context's loader (the global loader; a module's loader in the flat
     topology, whatever its name): for every name `find` lets through to the index, the first origin of the key in the
     loader's OWN index decides the outcome, and that file is the only one read -/
